@@ -36,7 +36,15 @@ mod private {
             let offset = stream.tell();
             let mut serializer = Serializer::new(BlockCheck::Crc32);
             self.serialize_tail(&mut serializer)?;
-            let size = stream.write_serializer(serializer)?.into();
+            let size = stream.write_serializer(serializer)?;
+            if size > 0xFFFF {
+                // The size of a tail is stored in the 16 low bits of a SizedOffset.
+                return Err(std::io::Error::other(format!(
+                    "Cannot store a tail of {size} bytes. Tail size is limited to 65535 bytes"
+                ))
+                .into());
+            }
+            let size = size.into();
             Ok(SizedOffset { size, offset })
         }
     }
